@@ -510,22 +510,27 @@ async def _drain(loop, how, nreplies, vanish_after, mode):
     kw = dict(write_speed_limit=20) if mode == "throttled" else {}
     server = aioftp.Server(path_io_factory=aioftp.MemoryPathIO, wait_future_timeout=2, data_ports=[40100, 40101],
                            maximum_connections=2, **kw)
+    loop.net.fixed_latency = 0.001
     await server.start(harness.HOST, PORT)
-    r, w = await asyncio.open_connection(harness.HOST, PORT)
-    await asyncio.sleep(0.1)
-    if mode == "not_reading":
-        w.transport.pause_reading()
-        filler = ("X" * 30000 + "\r\n") * nreplies  # unknown verbs, echoed in long 502 replies nobody reads
-    else:
-        filler = "PWD\r\n" * nreplies
-    w.write(("USER anonymous\r\nPASV\r\n" + filler + "QUIT\r\n").encode())
-    await asyncio.sleep(vanish_after)
-    state = _nontrivial_state(server)
-    pending_replies = any(not c_["response"] is None for c_ in server.connections.values()) and len(server.connections) > 0
-    if how == "rst":
-        w.transport.abort()
-    else:
-        w.close()
+    pending_replies = False
+    # (mode "plain": nothing slows the replies down; whether the writer's failure or the QUIT is noticed first then depends on
+    #  the order in which the dispatcher visits its finished tasks - a set - so the session is repeated)
+    for _rep in range(12 if mode == "plain" else 1):
+        r, w = await asyncio.open_connection(harness.HOST, PORT)
+        await asyncio.sleep(0.1)
+        if mode == "not_reading":
+            w.transport.pause_reading()
+            filler = ("X" * 30000 + "\r\n") * nreplies  # unknown verbs, echoed in long 502 replies nobody reads
+        else:
+            filler = ("SYST\r\n" if mode == "plain" else "PWD\r\n") * nreplies
+        w.write(("USER anonymous\r\nPASV\r\n" + filler + "QUIT\r\n").encode())
+        await asyncio.sleep(vanish_after)
+        pending_replies = pending_replies or len(server.connections) > 0
+        if how == "rst":
+            w.transport.abort()
+        else:
+            w.close()
+        await asyncio.sleep(1)
     await asyncio.sleep(10)
     leaks = ledger(loop, server, PORT)
     pool = sorted(p_ for _pr, p_ in server.available_data_ports._queue)
@@ -546,6 +551,7 @@ async def _drain(loop, how, nreplies, vanish_after, mode):
 def part_drain(ctx):
     cases = [(how, n, after, mode) for how in ("rst", "fin") for mode in ("throttled", "not_reading") for n in (1, 3, 40)
              for after in (0.01, 0.5, 3.0)]
+    cases += [(how, n, after, "plain") for how in ("rst", "fin") for n in (1, 2, 3, 5) for after in (0.0, 0.0001, 0.0011, 0.0021)]
     for how, n, after, mode in cases[ctx.shard::ctx.nshards]:
         leaks, pend = simnet.run(lambda loop: _drain(loop, how, n, after, mode))
         ctx.count(("drain", how, n, after, mode), pend, sample=dict(peer_ends_with=how, replies_queued_before_QUIT=n, vanishes_after=after,
@@ -560,6 +566,47 @@ def replay_drain(case):
     if leaks:
         kinds = "+".join(sorted(x.replace("after_close.", "") for x in leaks))
         raise Violation(f"C12/drain/{kinds}", dict(leaks=leaks))
+
+
+# ---------------------------------------------------------------- the same on real sockets (order of finished tasks is not simnet's to choose)
+async def _drain_real(nsessions, how):
+    import socket
+    import struct
+    server = aioftp.Server(path_io_factory=aioftp.MemoryPathIO, maximum_connections=nsessions + 5)
+    await server.start("127.0.0.1", 0)
+    port = server.server_port
+    for _ in range(nsessions):
+        r, w = await asyncio.open_connection("127.0.0.1", port)
+        await r.readline()
+        w.write(b"USER anonymous\r\nPASV\r\nSYST\r\nSYST\r\nQUIT\r\n")
+        if how == "rst":
+            w.get_extra_info("socket").setsockopt(socket.SOL_SOCKET, socket.SO_LINGER, struct.pack("ii", 1, 0))
+        w.close()
+        await asyncio.sleep(0.005)
+    for _ in range(100):  # up to 10 s, but a healthy server is done after the first few polls
+        if not server.connections:
+            break
+        await asyncio.sleep(0.1)
+    stuck = len(server.connections)
+    slots = server.available_connections.value
+    await asyncio.wait_for(server.close(), 30)
+    return stuck, slots, nsessions + 5
+
+
+def part_drain_real(ctx):
+    n = 40 if ctx.tier == "quick" else 300
+    for how in ("rst", "fin")[ctx.shard::ctx.nshards]:
+        stuck, slots, total = asyncio.run(_drain_real(n, how))
+        ctx.count(("drain_real", how), True, sample=dict(sessions=n, peer_ends_with=how, still_in_table_after_10s=stuck), classes=["drain_real"])
+        if stuck or slots != total:
+            ctx.fail("C12/drain_real/connection_table+server_connection_slots", dict(kind="drain_real", how=how, n=n),
+                     dict(sessions=n, stuck_sessions=stuck, free_slots=slots, configured=total))
+
+
+def replay_drain_real(case):
+    stuck, slots, total = asyncio.run(_drain_real(case["n"], case["how"]))
+    if stuck or slots != total:
+        raise Violation("C12/drain_real/connection_table+server_connection_slots", dict(stuck_sessions=stuck))
 
 
 def part_calibrate(ctx):
@@ -577,7 +624,7 @@ def part_calibrate(ctx):
 
 
 def plan(tier):
-    p = [("enumerate", 16), ("align", 8), ("pstart", 4), ("accept", 4), ("drain", 4), ("tapes", 8 if tier == "quick" else 16)]
+    p = [("enumerate", 16), ("align", 8), ("pstart", 4), ("accept", 4), ("drain", 4), ("drain_real", 2), ("tapes", 8 if tier == "quick" else 16)]
     if tier == "thorough":
         p.append(("calibrate", 1))
     return p
